@@ -172,3 +172,32 @@ UNITS = [
        params=['table_to_export_map', 'dependency_edges', 'data_dependency_edges', 'from_name', 'to_name'],
        ensures=["result == want"], native=gen_cl_rename),
 ]
+
+
+# ---------------------------------------------------------------------------------------------------------------
+# Annotations.AttachedDatabases proved: the user's @AttachDatabase entries are returned unchanged, and the only entry
+# ever added is the in-memory `logica_test` of SQLite programs that ground something and did not attach a database
+# of that name themselves (so a user-attached `logica_test` file is never shadowed).
+ADB = "self.annotations['@AttachDatabase']"
+GROUNDED = "('@Ground' in self.annotations and any(True for g in self.annotations['@Ground']))"
+
+UNITS += [
+  unit(U, 'AnnotationError', external=True, params=['message', 'annotation_value'], types={'message': 'str', 'annotation_value': 'dict[str,val]'},
+       fields={}, requires=[], ensures=[], raises={'RuleCompileException': 'True'}),
+  unit(U, 'Annotations.Engine', external=True, pure=True, params=[], fields={'self.annotations': 'dict[str,dict[str,dict[str,val]]]'},
+       returns='str', requires=[], ensures=[]),
+  unit(U, 'Annotations.AttachedDatabases', name='Annotations.AttachedDatabases[proved]', props=['C17'], params=[],
+       fields={'self.annotations': 'dict[str,dict[str,dict[str,val]]]'}, modifies=[], returns='dict[str,val]',
+       locals={'result': 'dict[str,val]'}, calls={'AnnotationError': 'AnnotationError'},
+       exceptions=['RuleCompileException'], may_raise={'RuleCompileException': "any('1' not in ADB[k] for k in ADB)".replace('ADB', ADB)},
+       requires=["'@AttachDatabase' in self.annotations"],
+       ensures=[
+           "all(k in result and result[k] == ADB[k]['1'] for k in ADB)".replace('ADB', ADB),
+           "all(k in ADB or (k == 'logica_test' and result[k] == ':memory:' and self.Engine() == 'sqlite' and GROUNDED) "
+           "for k in result)".replace('ADB', ADB).replace('GROUNDED', GROUNDED),
+           "implies(self.Engine() == 'sqlite' and 'logica_test' not in ADB and GROUNDED, "
+           "'logica_test' in result and result['logica_test'] == ':memory:')".replace('ADB', ADB).replace('GROUNDED', GROUNDED)],
+       native=gen_attached,
+       loops={0: {'inv': ["all(k in result and result[k] == ADB[k]['1'] for k in _visited0)".replace('ADB', ADB),
+                          "all(k in _visited0 for k in result)"]}}),
+]
